@@ -219,6 +219,9 @@ Record case := mkCase {
   c_calls : list call;
   c_results : list bool;                (* success of each call as observed *)
   c_probes : list (list (Z * Z));       (* length = 1 + number of calls: before, after each call *)
+  c_intra : list (list (list (Z * Z))); (* per call: probes taken INSIDE the call, before each command the
+                                           store sent to redis (empty on etcd): a call is one MULTI/EXEC, so a
+                                           reader between two commands sees the state before or after the call *)
   c_markers_left : bool                 (* a marker of this ident exists after the last call *)
 }.
 
@@ -270,12 +273,22 @@ Fixpoint results_of (b : backend) (ident : string) (sts : list (acc * dstate)) (
   | _, _ => []
   end.
 
+(* every probe taken inside call i shows the model state before or after call i *)
+Fixpoint intra_agree (ps : list (list (Z * Z))) (intra : list (list (list (Z * Z)))) : bool :=
+  match ps, intra with
+  | pre :: ((post :: _) as rest), l :: more =>
+      forallb (fun q => zz_list_eqb q pre || zz_list_eqb q post) l && intra_agree rest more
+  | _, [] => true
+  | _, _ => false
+  end.
+
 Definition agree (c : case) : bool :=
   match trace (c_backend c) (c_ident c) (c_plan c) (deployed (c_init c))
               (start_acc (c_plan c), c_init c) (c_calls c) with
   | None => false          (* the implementation's call sequence is not a deployment the model knows *)
   | Some sts =>
       probes_eqb (map (fun s => probe_of (snd s) (c_nodes c)) sts) (c_probes c)
+      && intra_agree (map (fun s => probe_of (snd s) (c_nodes c)) sts) (c_intra c)
       && bools_eqb (results_of (c_backend c) (c_ident c) sts (c_calls c)) (c_results c)
       && Bool.eqb (has_marker_of (snd (last sts (start_acc (c_plan c), c_init c))) (c_ident c)) (c_markers_left c)
   end.
@@ -288,8 +301,11 @@ Definition bounds_ok (plan : list (string * Z)) (nodes : list string) (prior pro
   forallb (fun t => let '(n, (p, q)) := t in
                     Z.leb (snd q) (fst q) && Z.leb (fst q) (fst p + planned plan n))
           (combine nodes (combine prior probe)).
-Definition final_ok (nodes : list string) (prior probe : list (Z * Z)) : bool :=
-  forallb (fun t => let '(p, q) := t in Z.eqb (fst q - snd q) (fst p - snd p)) (combine prior probe).
+(* status - recorded = what the markers of OTHER deployments of this (app, entrypoint)
+   contribute; in particular records and markers of other applications / entrypoints -
+   also those whose names merely share a prefix - never count *)
+Definition exact_ok (init : dstate) (nodes : list string) (probe : list (Z * Z)) : bool :=
+  forallb (fun t => let '(n, q) := t in Z.eqb (fst q - snd q) (marker_sum (markers init) n)) (combine nodes probe).
 
 Definition all_deletes_issued (plan : list (string * Z)) (cs : list call) : bool :=
   forallb (fun n => existsb (fun c => match c with CDelProc n' false => String.eqb n n' | _ => false end) cs)
@@ -299,8 +315,10 @@ Definition ok (c : case) : bool :=
   match c_probes c with
   | [] => false
   | prior :: _ =>
-      forallb (bounds_ok (c_plan c) (c_nodes c) prior) (c_probes c)
+      exact_ok (c_init c) (c_nodes c) prior
+      && forallb (bounds_ok (c_plan c) (c_nodes c) prior) (c_probes c)
+      && forallb (forallb (bounds_ok (c_plan c) (c_nodes c) prior)) (c_intra c)
       && (if all_deletes_issued (c_plan c) (c_calls c)
-          then final_ok (c_nodes c) prior (last (c_probes c) prior) && negb (c_markers_left c)
+          then exact_ok (c_init c) (c_nodes c) (last (c_probes c) prior) && negb (c_markers_left c)
           else true)
   end.
